@@ -121,6 +121,16 @@ class AtomTypeModify(transformation):
         atom.SetFormalCharge(self.charge)
 
 
+class RadicalModify(transformation):
+    def __init__(self, idx, radical):
+        self.idx = idx
+        self.radical = radical
+
+    def __call__(self, comb_mol, mapped_index):
+        atom = comb_mol.GetAtomWithIdx(mapped_index[self.idx])
+        atom.SetNumRadicalElectrons(self.radical)
+
+
 class RadicalIncrease(transformation):
     def __init__(self, idx):
         self.idx = idx
